@@ -58,15 +58,18 @@ def gen(out):
     ev = between(f, rel2, "fn evaluate_event_direct", "fn is_numeric")
     out.append(f"Definition query_mem_f64_view : bool := {b('as_f64' in ev)}.")
 
-    # a pruner that answers None: no zones, or all zones of the type
+    # an operator the index does not serve (`!=`; for the enum bitmap also an unknown variant):
+    # no zones, or all zones of the type.  An index that cannot be loaded keeps meaning "no zones".
     rel = "src/engine/core/zone/selector/field_selector.rs"
     s = read(rel)
-    arms = [("temporal", "IndexStrategy::TemporalEq", "IndexStrategy::EnumBitmap"),
-            ("enum", "IndexStrategy::EnumBitmap", "IndexStrategy::ZoneSuRF"),
-            ("zonexor", "IndexStrategy::ZoneXorIndex", "IndexStrategy::XorPresence")]
-    for name, a, z in arms:
+    arms = [("temporal", "IndexStrategy::TemporalEq", "IndexStrategy::EnumBitmap", r"CompareOp::Neq"),
+            ("enum", "IndexStrategy::EnumBitmap", "IndexStrategy::ZoneSuRF", r"CompareOp::Neq"),
+            ("zonexor", "IndexStrategy::ZoneXorIndex", "IndexStrategy::XorPresence", r"!matches!\(\s*operation,\s*Some\(CompareOp::Eq\)\)")]
+    for name, a, z, guard in arms:
         arm = between(s, rel, a + " {", z + " {")
-        out.append(f"Definition query_none_no_zones_{name} : bool := {b('return Vec::new()' in arm)}.")
+        if "return Vec::new()" not in arm:
+            raise Missing(f"{rel}: the {name} arm no longer answers 'no zones' when its pruner answers None")
+        out.append(f"Definition query_unserved_no_zones_{name} : bool := {b(re.search(guard, arm) is None)}.")
     surf = between(s, rel, "IndexStrategy::ZoneSuRF {", "IndexStrategy::ZoneXorIndex {")
     if "return Vec::new()" in surf or "create_all_zones_for_segment_from_meta_cached" not in surf:
         raise Missing(f"{rel}: the ZoneSuRF arm no longer falls back to all zones")
